@@ -71,7 +71,7 @@ HARNESS(h_div_kernel)
     ASSUME(x == x && l == l && fin_f32(l) && l >= 0x1p-126f && fabsf(x) <= l);
     f32 q = x / l;
     CHECK(q == q && fabsf(q) <= 1.0f, "|x/l| <= 1 and not NaN");
-    CHECK(x == 0.0f ? q == 0.0f : ((q > 0.0f) == (x > 0.0f)), "sign kept");
+    CHECK(x == 0.0f ? q == 0.0f : (x > 0.0f ? q >= 0.0f : q <= 0.0f), "sign never flipped (a quotient that underflows to zero is still on the right side)");
     END;
 }
 
